@@ -186,6 +186,8 @@ impl<'t> Int<'t> {
     fn process_qreg(&self, changes: &mut Self, alias: &'t str, q_num: N) -> Result<'t, ()> {
         Self::check_ident(alias)?;
         Self::check_reg_size(alias, q_num)?;
+        // all quantum registers together are addressed by one machine-word index
+        Self::check_reg_size(alias, self.q_reg.len() + changes.q_reg.len() + q_num)?;
         self.check_dup(changes, alias)?;
         changes.q_reg.append(&mut vec![alias; q_num]);
         Ok(())
@@ -194,6 +196,7 @@ impl<'t> Int<'t> {
     fn process_creg(&self, changes: &mut Self, alias: &'t str, q_num: N) -> Result<'t, ()> {
         Self::check_ident(alias)?;
         Self::check_reg_size(alias, q_num)?;
+        Self::check_reg_size(alias, self.c_reg.len() + changes.c_reg.len() + q_num)?;
         self.check_dup(changes, alias)?;
         changes.c_reg.append(&mut vec![alias; q_num]);
         Ok(())
